@@ -10,8 +10,6 @@ NA = {
     "C01": "Quantifies over generated programs compared with an independent reference evaluator; no table, sibling or "
            "path-shape clause exists whose breakage the existing tests would not already expose. No sound static argument "
            "bounds overload resolution or FOAM generation.",
-    "C11": "Numerical exactness over operand values (carries, borrows, normalisation) is a run-time quantity; the only sibling "
-           "layer (runtime wrappers -> bint primitives) is already compared call-for-call under C04.",
     "C14": "Compares parse trees of two renderings; its truth lives in the 2-D layout rules applied to run-time token "
            "positions. The single structural clause (comments/newlines dropped before parsing) fails the existing tests at once.",
 }
@@ -39,6 +37,21 @@ claim("C20",
       "structural lints over the clang AST (custom LibTooling extractor + Python rules): expression-shape match, sibling token "
       "isomorphism, macro evaluation",
       "DESIGN.md section 3, C20")
+
+claim("C11",
+      "Thin, structural: exactness over operand values is NOT decided (digit-level addition, multiplication, division, "
+      "normalisation and conversions are numerical and out of reach of a static argument here). Decided, as necessary conditions "
+      "read off the code: (N1) the word add/multiply steps every multi-word operation is built from take the carry of each "
+      "two-term sum; (N2) no int-width shift by a variable count inside 64-bit arithmetic in bigint.c/dword.c; (N3) the three "
+      "negative-operand cases of bintPlus, bintMinus, bintTimes and bintDivide, executed by the checker over a sign algebra on the "
+      "operands' magnitudes, yield the operation's definition (quotient toward zero, remainder with the dividend's sign), hand "
+      "non-negative operands to the inner call, restore the caller's operands and guard the double negation of aliased operands; "
+      "(N4) bintMod gives the result the sign the dividend had on entry.",
+      "Trusted: clang 14 front end. Assumes (induction) that the inner call on non-negative operands returns its mathematical "
+      "result, and the macro body of BINT_NEGATE.",
+      "abstract execution of straight-line sign-case code over a finite sign algebra (custom LibTooling extractor + Python rule); "
+      "statement-shape lints shared with C04 (carry idiom, shift width)",
+      "DESIGN.md section 3, C11")
 
 claim("C10",
       "Thin, structural: decides only the size-class table clause (monotone, aligned, shift/lookup encoding consistent, lookup "
